@@ -1,6 +1,6 @@
 """Human-written texts for MANIFEST.json."""
 ENGINES = [
-    {"name": "S5-chainsim", "path": "/verif/sim/chainsim", "serves_properties": ["C06", "C07", "C10", "C11"],
+    {"name": "S5-chainsim", "path": "/verif/sim/chainsim", "serves_properties": ["C06", "C07", "C08", "C09", "C10", "C11"],
      "kind_free_text": "whole-node deterministic simulation: three real core.Core (prime/region/zone) in one synctest bubble; seeded scheduler owns mining, head selection (forks/reorgs), delivery, storage (SimDisk) and the worker refresh; rapid tape = replay"},
     {"name": "S2-triesim", "path": "/verif/sim/triesim", "serves_properties": ["C18"],
      "kind_free_text": "seeded trie histories with restart / crash-at-write-prefix / proof-corruption faults against a map model with per-root snapshots"},
@@ -39,7 +39,7 @@ META = {
         "engine": "S5-chainsim", "design_ref": "DESIGN.md section 4 C07",
         "technique": "deterministic whole-node simulation: worker-built blocks from seeded mempools sealed and fed back to the same node",
         "text": ("Exploration of the liveness half (assembly == validation): every block the worker builds from seeded mempool contents (including adversarial Qi transactions the pool admitted) and inbound ETX queues must be accepted by the node's own validation and executed as head."),
-        "note": "The rejection half (single-component mutations of valid blocks are refused without trace) is not yet part of this check.",
+        "note": "Both halves are checked: own blocks accepted (TestC07) and single-component rewrites of the honest candidate, re-sealed with real work, rejected without trace (TestC07Byz). Byzantine candidates are zone-order blocks.",
     },
     "C10": {
         "engine": "S5-chainsim", "design_ref": "DESIGN.md section 4 C10",
@@ -53,5 +53,17 @@ META = {
         "text": ("Fault enumeration within sampled histories: each history's global disk write log (all three chain databases, puts/deletes and atomic batch commits in order) is cut at drawn prefixes biased to the block-batch boundaries; the node is restarted on each image with real start-up code, "
                  "its head is checked against stored state and header commitments, the original chain is re-delivered and the recovered chain state must equal the uncrashed one."),
         "note": "Crash prefixes are sampled (1..5 per history), not all enumerated; torn batches and reordered writes are outside the engines' contract and not injected; memorydb-backed SimDisk stands in for leveldb/pebble (same write order).",
+    },
+    "C09": {
+        "engine": "S5-chainsim", "design_ref": "DESIGN.md section 4 C09, section 2.7",
+        "technique": "deterministic whole-node simulation with a byzantine block rewriter (one derived header field changed, re-sealed with real PoW) plus per-edge entropy/order invariants",
+        "text": "Exploration: in seeded chain histories a simulated adversary with its own hash power presents blocks that deviate from the honest candidate in exactly one parent-derived header field; the node must refuse each; honest edges must show strictly increasing entropy and stable order.",
+        "note": "Zone-order candidates only; share-difficulty fields and clock skew not exercised (stated in the evidence rule).",
+    },
+    "C08": {
+        "engine": "S5-chainsim", "design_ref": "DESIGN.md section 4 C08, section 2.7",
+        "technique": "deterministic whole-node simulation with a byzantine block rewriter (seal reused on changed content) plus independent PoW recomputation for every accepted block",
+        "text": "Exploration of the blake3 clause: reused seals on changed content are refused; every accepted block's hash is recomputed by the harness and compared with the target of its declared difficulty.",
+        "note": "AuxPoW / progpow / kawpow clauses are not decided (engines not run in this harness); said so in evidence assumptions.",
     },
 }
